@@ -4,7 +4,7 @@
    transcription of queue<T> (QueueDefs.q_step) resp. queue<void> (vq_step).  `q_final ops` is the state after the history,
    `q_good pv q done` is the invariant every destruction-free history establishes (q_good_run); histories containing a
    destroy are covered by c09_destroy_cancels + c09_dead_rejects (after destruction every op is rejected). *)
-From Cocls Require Import Base BaseProofs QueueDefs QueueProofs QueueConcProofs.
+From Cocls Require Import Base BaseProofs QueueDefs QueueProofs QueueConcProofs QueueOrderProofs.
 Local Open Scope Z_scope.
 
 (* sequential refinement: every observation of the code-shaped model is the observation of the FIFO specification
@@ -109,6 +109,28 @@ Theorem c09_conc_conservation : forall thrs s, Forall t_fresh thrs -> t_reachabl
   (t_items s = [] \/ t_waiters s = []).
 Proof. intros thrs s. exact (tq_conservation None thrs s I). Qed.
 Print Assumptions c09_conc_conservation.
+
+(* per-producer order at every consumer, for every schedule: among the items consumer c has received (got c s, in the
+   order it received them), those pushed by producer p carry strictly increasing push indices *)
+Theorem c09_conc_per_producer_order : forall thrs s c p, Forall t_fresh thrs -> t_reachable None thrs s ->
+  Sorted.StronglySorted lt (map it_k (filter (of_p p) (got c s))).
+Proof. intros thrs s c p. exact (tq_per_producer_order None thrs s c p I). Qed.
+Print Assumptions c09_conc_per_producer_order.
+
+(* items are matched to pops in critical-section order, which is a prefix of the push order; what a consumer has
+   received plus what is in flight for it is exactly its share of that matching, in order (single consumer: FIFO) *)
+Theorem c09_conc_assignment_prefix : forall thrs s, Forall t_fresh thrs -> t_reachable None thrs s ->
+  t_plog s = map snd (t_alog s) ++ t_items s ++ map fst (t_blocked s) /\
+  forall c, map snd (filter (is_c c) (t_alog s)) = got c s ++ map snd (filter (is_c c) (iitems (t_infl s))).
+Proof. intros thrs s. exact (tq_assignment_is_push_prefix None thrs s I). Qed.
+Print Assumptions c09_conc_assignment_prefix.
+
+Example c09_conc_nonvacuous :
+  let thrs := flat_map t_decode_thr [[1; 101; 102]; [1; 201]; [2; 2]; [2; 1]]%Z in
+  let s := fst (t_run_sched 40 (t_init None thrs) [2; 2; 0; 1; 0; 0; 1; 1; 0; 0]%Z []) in
+  Forall t_fresh thrs /\ t_reachable None thrs s /\
+  map it_v (got 2 s) = [101; 102]%Z /\ map it_v (got 3 s) = [201]%Z /\ t_infl s = [] /\ t_items s = [].
+Proof. split; [apply t_decode_fresh|]. split; [eexists; eexists; eexists; reflexivity|]. vm_compute. repeat split. Qed.
 
 (* non-vacuity: three pops wait, unblock_pop fails the oldest, two pushes serve the next two in order, a third is queued *)
 Example c09_nonvacuous :
